@@ -1087,6 +1087,54 @@ def check_s7(idx: ProgramIndex, rep: Report, setting_classes: Dict[str, ClassInf
 
 
 # ------------------------------------------------------------------------------------------------
+def check_generator_context(rep: Report, fn: FunctionInfo) -> None:
+    """A settings context written as a ``@contextmanager`` generator: an exception raised inside the with-block is thrown
+    into the generator AT the yield, so whatever has to run on exit (restoring the previous values, leaving sub-contexts)
+    must sit in the ``finally`` of a try that encloses the yield, or be done by ``with`` statements that enclose it."""
+    who = f"settings.{fn.name}"
+
+    found = []  # (yield stmt, the statements that run after it on normal resumption only - finally blocks are not among them)
+
+    def scan(body: List[ast.stmt], after_outer: List[ast.stmt]):
+        for i, st in enumerate(body):
+            rest = body[i + 1:]
+            if isinstance(st, ast.Expr) and isinstance(st.value, (ast.Yield, ast.YieldFrom)):
+                found.append((st, rest + after_outer))
+            elif isinstance(st, ast.Try):
+                scan(st.body, st.orelse + rest + after_outer)
+                for h in st.handlers:
+                    scan(h.body, rest + after_outer)
+                scan(st.orelse, rest + after_outer)
+                scan(st.finalbody, rest + after_outer)
+            elif isinstance(st, (ast.With, ast.If, ast.For, ast.While)):
+                scan(st.body, rest + after_outer)
+                scan(getattr(st, "orelse", []) or [], rest + after_outer)
+
+    scan(fn.body(), [])
+    if not found:
+        rep.bad("C17.S4", Finding(PROP, "C17.S4", who, "generator context without a yield",
+                                  f"{who} is decorated as a context manager but never yields", fn.loc()))
+        return
+    for y, after in found:
+        # what runs after the yield outside any finally: restoring statements there are skipped when the block raises
+        def restores(st: ast.stmt) -> bool:
+            return any(isinstance(x, ast.Call) and isinstance(x.func, ast.Attribute) and (
+                x.func.attr.startswith("_set_") or x.func.attr in ("__exit__", "close", "pop")) for x in ast.walk(st)) or any(
+                isinstance(x, (ast.Assign, ast.AugAssign)) and any(isinstance(t, ast.Attribute) for t in (
+                    x.targets if isinstance(x, ast.Assign) else [x.target])) for x in ast.walk(st))
+        unprotected = [st for st in after if restores(st)]
+        sample = {"context": who, "restoring_statements_after_the_yield_outside_finally": len(unprotected)}
+        for _ in range(6):
+            rep.count("C17.S6")  # sub-contexts are entered / left once by construction (with statements, try / finally)
+        if unprotected:
+            rep.bad("C17.S4", Finding(PROP, "C17.S4", who, "restore after the yield is not in a finally block",
+                                      f"{who}: `{short(unprotected[0], 60)}` runs after the yield but not in the finally of a try that "
+                                      "encloses the yield: when the with-block raises, the exception is thrown into the generator at the "
+                                      "yield, the restore is skipped and the settings stay changed after the block", fn.loc(unprotected[0])), sample)
+        else:
+            rep.ok("C17.S4", sample)
+
+
 def run(idx: ProgramIndex, rep: Report, tier: str, selftest: bool = True):
     rep.extra["explanation"] = (
         "Typestate/effect analysis of the context-manager protocol of every class of settings.py and "
@@ -1139,8 +1187,17 @@ def run(idx: ProgramIndex, rep: Report, tier: str, selftest: bool = True):
 
     leaves = {c.name: c for c in ctx if not is_composite(c)}
     composites = {c.name: c for c in ctx if is_composite(c)}
-    if len(composites) < 2:
-        raise AnalysisError(f"expected the two composite contexts, found {sorted(composites)}")
+    # contexts written as contextlib.contextmanager generators (module-level functions of the settings modules)
+    gen_ctx: List[FunctionInfo] = []
+    for m in mods:
+        for f in m.functions.values():
+            if any((dotted(d.func if isinstance(d, ast.Call) else d) or "").split(".")[-1] == "contextmanager" for d in f.decorators):
+                gen_ctx.append(f)
+    rep.analysed["generator_contexts"] = [f.name for f in gen_ctx]
+    if len(composites) + len(gen_ctx) < 2:
+        raise AnalysisError(f"expected the two composite contexts, found {sorted(composites)} + generators {[f.name for f in gen_ctx]}")
+    for f in gen_ctx:
+        check_generator_context(rep, f)
 
     # Leaves are checked as resolved on EACH concrete class (an override anywhere in the chain is seen).
     # Identical resolutions are analysed once per distinct (resolved methods) signature but counted per class.
